@@ -60,6 +60,9 @@ CHECKS = {
  "C13": ("property-based testing (rapid): generated (value, path set, mode, option) tuples through compiled with_field_mask code vs an independent reference filter; strict reference decoder for well-formedness of every container header",
          "Programs generated with with_field_mask are compiled into the reflective driver; writing and reading under generated masks must be well-formed (strict decoder: header counts equal elements) and, on conflict-free path sets, equal the reference filter of the model value; a nil mask must behave like code without the option.",
          "Trusted: the reference filter (written from fieldmask/README.md and the property statement, validated on 30 hand cases), the reference codec."),
+ "C08": ("stateful property-based testing (rapid): generated call sequences through generated client -> in-memory transport -> generated processor with a synthesised recording handler; wire messages judged by an independent codec",
+         "Generated services are compiled with a handler synthesised from the generated interface; sequences of calls with scripted outcomes (value, declared exception, undeclared error, unknown method, oneway) must deliver equal arguments and results, map errors to the right exception kinds, dispatch inherited methods, and put <IDL name, type, seqid> + args/result structs with the IDL ids on the wire.",
+         "Trusted: apache thrift v0.13.0 TStandardClient/TBinaryProtocol as the transport machinery around the generated code; the reference codec."),
 }
 NOT_YET = "check not built yet (work in progress; the technique applies, see DESIGN.md)"
 
